@@ -57,7 +57,21 @@ class TypeAliasUnwrappingProvider(LocatedRequestDelegatingProvider):
         if not isinstance(norm, NormTypeAlias):
             raise CannotProvide
 
-        return norm.value[tuple(arg.source for arg in norm.args)] if norm.args else norm.value
+        if not norm.args:
+            return norm.value
+
+        args = tuple(arg.source for arg in norm.args)
+        declared_params = tuple(param.source for param in norm.type_params)
+        value_params = getattr(norm.value, "__parameters__", ())
+        if (
+            len(declared_params) == len(args)
+            and all(isinstance(param, TypeVar) for param in declared_params)
+            and all(param in declared_params for param in value_params)
+        ):
+            # the value lists its parameters in order of appearance, which may differ from the declared order
+            param_to_arg = dict(zip(declared_params, args))
+            return norm.value[tuple(param_to_arg[param] for param in value_params)]
+        return norm.value[args]
 
 
 class ForwardRefEvaluatingProvider(LocatedRequestDelegatingProvider):
